@@ -451,3 +451,9 @@ def r13(ctx, R):
     st = [s for s in walk_no_nested(fn) if isinstance(s, ast.Assign) and 'uold' in ast.unparse(s.value)]
     ok = len(st) == 1 and ast.unparse(st[0].targets[0]) == 'L.u[:]' and ast.unparse(st[0].value) == 'L.uold[:]'
     R.check(ok, 'HotRod.post_iteration_processing :: L.u[:] = L.uold[:] (whole list, u[0] included)', w, 'L.u[:] = L.uold[:]', [ast.unparse(s) for s in st])
+
+
+@rule('C06', 'C06.R14', 'the steps that tile the next block are those of the FINAL activity mask: `active_slots` is compressed after the last write of `active` in run() of the serial controllers (shared with C15.R9)', floor=4)
+def r14(ctx, R):
+    from . import c15
+    c15.r9(ctx, R)
